@@ -214,6 +214,7 @@ def main():
     findings = [f for f in load_findings() if f.get("property") == prop]
     known_lines = []
     known_keys = set()
+    known_classes = []
     for f in findings:
         if f.get("status") == "fixed":
             continue
@@ -226,6 +227,8 @@ def main():
         if obs and obs[0] == f["observed"]["class"] and obs[1].hex() == f["observed"].get("stdout_hex", obs[1].hex()):
             known_lines.append("KNOWN-FINDING: property=%s %s" % (prop, f["what"]))
             known_keys.add(fc.key())
+            if f.get("class") in props.KF_CLASSES:
+                known_classes.append(props.KF_CLASSES[f["class"]])
         else:
             violations.append(("known finding %s behaves differently now" % f["id"],
                                {"property": prop, "kind": "finding-changed", "finding": f,
@@ -245,6 +248,9 @@ def main():
         # theorem, so an in-domain disagreement is a failing input of the property itself
         violations.append((why, payload, bool(P.get("absolute")) and in_dom))
     for what, payload in oracle_fail:
+        members = payload.pop("_cases", [])
+        if members and any(all(k(c) for c in members) for k in known_classes):
+            continue        # inside a listed finding class whose witness still reproduces
         violations.append((what, dict(payload, property=prop, kind="oracle"), True))
     if not ok_coq:
         violations.append(("proof / pin / hygiene check failed",
